@@ -92,6 +92,7 @@ def run(ctx):
                            "(found %d, %d)" % (len(ins), len(gets)), where_of(eld))
             else:
                 (ib, it), (gb, gt) = ins[0], gets[0]
+                loops = eld.loop_blocks()
                 if ib not in loops or gb not in loops:
                     ctx.report("C13-exports-only", "loop", "exports are not copied out in a loop over the export specs", where_of(eld))
                 # environment of the lookup is the fresh one
